@@ -796,12 +796,47 @@ def gen_doctables(repo=REPO):
 # driver
 # --------------------------------------------------------------------------
 
+def parse_iso4217(repo=REPO):
+    """Independent reading of the bundled ISO 4217 table (NOT via
+    currencies.py): first entry per code with numeric number and minor units."""
+    path = os.path.join(repo, "src", "quantity", "money", "iso_4217.xml")
+    root = ET.parse(path).getroot()
+    table, seen = [], set()
+    for entry in root.iter("CcyNtry"):
+        d = {child.tag: (child.text or "") for child in entry}
+        if len(list(entry)) != 5:
+            continue
+        code, num, minor = d.get("Ccy", ""), d.get("CcyNbr", ""), d.get("CcyMnrUnts", "")
+        if not (num.isdigit() and minor.isdigit()) or not code:
+            continue
+        if code in seen:
+            continue
+        seen.add(code)
+        table.append((code, d.get("CcyNm", ""), int(minor)))
+    if len(table) < 100:
+        raise Untranslatable(f"only {len(table)} currencies found in iso_4217.xml")
+    return table
+
+
+def gen_iso4217(repo=REPO):
+    table = parse_iso4217(repo)
+    out = HEADER.format(src="src/quantity/money/iso_4217.xml (parsed by the "
+                        "translator, not by currencies.py)")
+    out += "import QuantityModel.Model.Basic\nnamespace QM.Gen\n\n"
+    out += ("/-- (ISO code, currency name, minor units) -/\n"
+            "def isoTable : List (String × String × Nat) := [\n  ")
+    out += ",\n  ".join(f"({lean_str(c)}, {lean_str(n)}, {m})" for c, n, m in table)
+    out += "]\n\nend QM.Gen\n"
+    return out
+
+
 GENERATORS = {
     "FloorDiv.lean": gen_floordiv,
     "Prefixes.lean": gen_prefixes,
     "Catalogue.lean": gen_catalogue,
     "TempTable.lean": gen_temptable,
     "DocTables.lean": gen_doctables,
+    "Iso4217.lean": gen_iso4217,
 }
 
 
